@@ -346,16 +346,17 @@ def handle {σ} (hook : ObjHook σ) (t : Target σ) (raw : Bytes) : Target σ ×
           | none => (bad "SendUnitData on a connection that is not open", none)
           | some c =>
               let b1 := b.event (.encap CMD_SEND_UNIT f.session true)
-              let b1 := if msg.length > c.size then b1.event (.violation s!"connected request of {msg.length} bytes on a {c.size}-byte connection") else b1
+              -- the connection size counts the connected data item: 2-byte sequence count + message (Vol 1, 3-5.5.1.1)
+              let b1 := if msg.length + 2 > c.size then b1.event (.violation s!"connected request of {msg.length + 2} bytes on a {c.size}-byte connection") else b1
               let b1 := if c.lastSeq == some seq then b1.event (.violation s!"sequence count {seq} repeated on consecutive connected messages") else b1
               let b1 := { b1 with conns := b1.conns.map fun c' => if c'.cid == cid then { c' with lastSeq := some seq } else c' }
-              if msg.length > c.size then
+              if msg.length + 2 > c.size then
                 ({ t with base := b1 }, some (frame CMD_SEND_UNIT f.session 0 f.context
                     (cpfReplyConnected c.toId seq (encMRReply ((msg.headD 0).toNat) { status := 0x11 }))))
               else
-              let (t1, mr) := execMR hook { t with base := b1 } f.session (some c.size) true false [] msg
-              let t2 := if mr.length > c.size then
-                  { t1 with base := t1.base.event (.violation s!"connected reply of {mr.length} bytes on a {c.size}-byte connection") } else t1
+              let (t1, mr) := execMR hook { t with base := b1 } f.session (some (c.size - 2)) true false [] msg
+              let t2 := if mr.length + 2 > c.size then
+                  { t1 with base := t1.base.event (.violation s!"connected reply of {mr.length + 2} bytes on a {c.size}-byte connection") } else t1
               (t2, some (frame CMD_SEND_UNIT f.session 0 f.context (cpfReplyConnected c.toId seq mr)))
       | _ => (bad "SendUnitData: malformed common packet format", none)
     else (bad s!"unsupported encapsulation command {f.command}", some (frame f.command f.session 0x01 f.context []))
